@@ -34,6 +34,15 @@ theorem commit_J (s s' : St L) (hj : J s) (hne : s.stack ≠ []) (h : commit par
         exact ⟨struct_setFields _ _ _ _ _ (struct_addChild _ _ hp hj.st), by simp, by simp [hst], rfl,
           s.nodes.size, rfl, by simp⟩
 
+theorem stepField_J (s s' : St L) (c : Char) (hj : J s) (h : stepField s c = .cont s') : J s' := by
+  unfold stepField at h
+  split at h
+  · cases h; exact ⟨hj.st, hj.stack, hj.cur, hj.top⟩
+  · split at h
+    · cases h
+    · cases h; exact ⟨hj.st, hj.stack, hj.cur, hj.top⟩
+  · cases h
+
 theorem step_J (s s' : St L) (c : Char) (hj : J s) (h : step parseLen s c = .cont s') : J s' := by
   unfold step at h
   split at h
@@ -43,7 +52,10 @@ theorem step_J (s s' : St L) (c : Char) (hj : J s) (h : step parseLen s c = .con
   split at h
   · cases h; exact hj
   split at h
-  · cases h; exact ⟨hj.st, hj.stack, hj.cur, hj.top⟩   -- quote
+  · -- quote
+    split at h
+    · cases h; exact ⟨hj.st, hj.stack, hj.cur, hj.top⟩
+    · exact stepField_J s s' c hj h
   · cases h; exact ⟨hj.st, hj.stack, hj.cur, hj.top⟩   -- lbr
   · cases h; exact ⟨hj.st, hj.stack, hj.cur, hj.top⟩   -- rbr
   · cases h; exact ⟨hj.st, hj.stack, hj.cur, hj.top⟩   -- colon
@@ -116,12 +128,6 @@ theorem step_J (s s' : St L) (c : Char) (hj : J s) (h : step parseLen s c = .con
   · -- semi
     repeat' (first | cases h | split at h)
   · -- other
-    unfold stepField at h
-    split at h
-    · cases h; exact ⟨hj.st, hj.stack, hj.cur, hj.top⟩
-    · split at h
-      · cases h
-      · cases h; exact ⟨hj.st, hj.stack, hj.cur, hj.top⟩
-    · cases h
+    exact stepField_J s s' c hj h
 
 end NW
